@@ -315,7 +315,11 @@ def c05_programs(n_sys, prios, new_prios, steps=2, two_actors=False):
         # remove x then register a NEW object with the same id / the SAME object again
         re_new = [[["remove", i], ["add", [i, 2], prio_of[i], list(ALWAYS), []]] for i in ids]
         re_same = [[["remove", i], ["add", [i, 1], prio_of[i], list(ALWAYS), []]] for i in ids]
-        scripts = [[b] for b in base] + re_new + re_same
+        # two changes of the system set by ONE running system: two removals (either order), a registration followed by a removal
+        two = [[["remove", i], ["remove", j]] for i in ids for j in ids if i != j] + \
+              [[["add", ["n", 1], p, list(ALWAYS), []], ["remove", i]] for p in new_prios for i in ids] + \
+              [[["clean_up"], ["remove", i]] for i in ids]
+        scripts = [[b] for b in base] + re_new + re_same + two
         for actor in range(n_sys):
             for sc in scripts:
                 yield _c05_prog(ids, pr, {actor: sc}, steps)
